@@ -215,7 +215,35 @@ def gen_par(rng, ids, alive, density, ops):
     ops.append(['par', '', subs])
 
 
-def gen_history(rng, par_rate=0.06, max_len=40):
+def gen_load_scenario(rng, ids, alive, density, ops):
+    """the load path: a persisted expression that is re-assigned when the rest of the graph has changed meanwhile"""
+    live = sorted(alive)
+    if len(live) < 2:
+        return
+    p, q = rng.sample(live, 2)
+    if rng.random() < 0.5:
+        # hot-unplug: p reads q (saved); p goes away keeping its data; q is made to read p; p comes back
+        ops.append(['set', p, text_of(_wrap_ref(rng, q, ids, density))])
+        ops.append(['save', p, ''])
+        ops.append(['unplug', p, ''])
+        ops.append(['set', q, text_of(_wrap_ref(rng, p, ids, density))])
+        if rng.random() < 0.5:
+            ops.append(['save', q, ''])
+        ops.append(['add', p, ''])
+        ops.append(['probe', q, ''])
+    else:
+        # crash: p's expression cleared in memory but not saved, q <- $p accepted and saved, restart
+        ops.append(['set', p, text_of(_wrap_ref(rng, q, ids, density))])
+        ops.append(['save', p, ''])
+        ops.append(['set', p, '' if rng.random() < 0.7 else text_of(gen_tree(rng, ids, 1, density))])
+        ops.append(['set', q, text_of(_wrap_ref(rng, p, ids, density))])
+        ops.append(['save', q, ''])
+        ops.append(['restart', '', ''])
+        for x in live:
+            ops.append(['probe', x, ''])
+
+
+def gen_history(rng, par_rate=0.06, max_len=40, load_rate=0.03):
     n = rng.randint(2, 8)
     ids = ['p%d' % i for i in range(1, n + 1)]
     present = [i for i in ids if rng.random() < 0.9] or ids[:2]
@@ -227,6 +255,18 @@ def gen_history(rng, par_rate=0.06, max_len=40):
         gone = [i for i in ids if i not in alive]
         if rng.random() < par_rate:
             gen_par(rng, ids, alive, density, ops)
+        elif rng.random() < load_rate:
+            gen_load_scenario(rng, ids, alive, density, ops)
+        elif rng.random() < 0.03 and len(alive) > 1:
+            p = rng.choice(sorted(alive))
+            alive.discard(p)
+            ops.append(['unplug', p, ''])
+        elif rng.random() < 0.012:
+            ops.append(['restart', '', ''])
+            for x in sorted(alive):
+                ops.append(['probe', x, ''])
+        elif rng.random() < 0.02:
+            ops.append(['probe', rng.choice(sorted(alive)), ''])
         elif r < 0.07 and len(alive) > 1:
             p = rng.choice(sorted(alive))
             alive.discard(p)
@@ -246,12 +286,14 @@ def gen_history(rng, par_rate=0.06, max_len=40):
             # mostly chains / shallow trees so that long cycles are attempted, sometimes deep nesting
             d = rng.choice([0, 0, 1, 1, 2, 3])
             ops.append(['set', p, text_of(gen_tree(rng, ids, d, density))])
+            if rng.random() < 0.5:
+                ops.append(['save', p, ''])      # the API saves after a PATCH; a crash may come before
     return {'ports': present, 'ops': ops[:max_len + 10]}
 
 
 def gen_par_history(rng):
     """the concurrent generator used by search(): short histories in which every third operation is a concurrent step"""
-    return gen_history(rng, par_rate=0.35, max_len=12)
+    return gen_history(rng, par_rate=0.35, max_len=12, load_rate=0.15)
 
 
 EXH_PORTS = ['p1', 'p2', 'p3']
@@ -341,8 +383,8 @@ async def _add_port(I, pid, enabled):
     return port
 
 
-async def _remove_port(I, port):
-    # core/api/funcs/ports.py:delete_port
+async def _remove_port(I, port, persisted_data=True):
+    # core/api/funcs/ports.py:delete_port; persisted_data=False: what shutdown / a peripheral port going away do
     # Not C04's subject, but the harness must survive it: BasePort.cleanup() cancels the eval task once and awaits it; when the
     # cancellation lands inside Function.eval_args' asyncio.gather and a sibling argument has already failed, gather reports
     # that failure instead of the cancellation, _eval_and_write swallows it, and remove() waits forever.  So: let a running
@@ -351,7 +393,7 @@ async def _remove_port(I, port):
         if not port.has_pending_eval():
             break
         await asyncio.sleep(0)
-    task = asyncio.ensure_future(port.remove())
+    task = asyncio.ensure_future(port.remove(persisted_data=persisted_data))
     for i in range(2000):
         if task.done():
             break
@@ -359,9 +401,11 @@ async def _remove_port(I, port):
         if i % 10 == 9 and getattr(port, '_eval_task', None) is not None:
             port._eval_task.cancel()
     await asyncio.wait_for(task, 5)
-    await I.core_vports.remove(port.get_id())
+    if persisted_data:
+        await I.core_vports.remove(port.get_id())
 
 
+VPORT_ARGS = {'type_': 'number', 'min_': None, 'max_': None, 'integer': None, 'step': None, 'choices': None}
 SEQ_VALUES, SEQ_DELAYS = [1, 2, 3], [60000, 60000, 60000]      # long delays: the sequence is still running afterwards
 
 
@@ -461,9 +505,11 @@ async def run_history(I, h):
            oracle verdict None | (operation index, kind, detail))"""
     for port in list(I.core_ports.get_all()):
         await _remove_port(I, port)
+    await I.core_ports.reset()            # no persisted port data left over from another history
     obs = []
     verdict = None
     touched = []
+    persisted = {}                        # the harness's own record of what port.save() wrote: id -> expression text
     try:
         for i, pid in enumerate(h['ports']):
             touched.append(await _add_port(I, pid, i % 2 == 0))
@@ -472,6 +518,40 @@ async def run_history(I, h):
             if kind == 'seq':
                 port = I.core_ports.get(pid)
                 obs.append((await _start_sequence(I, port) if port is not None else 'seq-refused', ''))
+                continue
+            if kind in ('save', 'unplug', 'probe'):
+                port = I.core_ports.get(pid)
+                if port is None:
+                    obs.append(('noport', ''))
+                    continue
+                if kind == 'save':
+                    await port.save()
+                    persisted[pid] = _text(I, pid)
+                elif kind == 'unplug':
+                    await _remove_port(I, port, persisted_data=False)
+                obs.append(('accepted', _text(I, pid)))
+                continue
+            if kind == 'restart':
+                # shutdown (core_ports.cleanup: every port removed, persisted data kept) + start-up (core_ports.load)
+                idsnow = [x.get_id() for x in I.core_ports.get_all()]
+                for x in list(I.core_ports.get_all()):
+                    await _remove_port(I, x, persisted_data=False)
+                st = {x: ('', set()) for x in idsnow}
+                for x in idsnow:                      # what the specification says the load must give
+                    if persisted.get(x):
+                        _serve(st, 'set', x, _candidate(I, x, persisted[x]))
+                touched.extend(await I.core_ports.load([dict(VPORT_ARGS, driver=I.core_vports.VirtualPort, id_=x) for x in idsnow]))
+                await asyncio.sleep(0)
+                got = {x: _text(I, x) for x in idsnow}
+                if got != {x: st[x][0] for x in idsnow}:
+                    bad = ('load-differs', 'after a restart the expressions are %r; loading the persisted ones %r in turn, each '
+                           'checked, gives %r' % (got, {x: persisted.get(x, '') for x in idsnow}, {x: st[x][0] for x in idsnow}))
+                obs.append(('accepted', ''))
+                cyc = _distinct_cycle(_edges(I))
+                if cyc is not None:
+                    bad = ('cycle-present', 'ports %s and %s read each other after the restart' % tuple(cyc))
+                if bad is not None and verdict is None:
+                    verdict = (k, bad[0], bad[1])
                 continue
             if kind == 'par':
                 subs = text
@@ -490,6 +570,9 @@ async def run_history(I, h):
                         coros.append(_do_remove(I, port))
                 outcomes = list(await asyncio.gather(*coros))
                 afters = [_text(I, spid) for _, spid, _ in subs]
+                for (skind, spid, _), out in zip(subs, outcomes):
+                    if skind == 'remove' and out == 'accepted':
+                        persisted.pop(spid, None)
                 if not _serializable(before, reqs, outcomes, afters):
                     bad = ('not-serializable', 'no order of serving the concurrent requests %r one after the other gives the '
                            'outcomes %r and the expressions %r' % (subs, outcomes, afters))
@@ -498,13 +581,21 @@ async def run_history(I, h):
                 port = I.core_ports.get(pid)
                 if port is None or (kind == 'add' and port is not None):
                     if kind == 'add' and port is None:
+                        st = _state(I)
+                        st[pid] = ('', set())
+                        if persisted.get(pid):
+                            _serve(st, 'set', pid, _candidate(I, pid, persisted[pid]))
                         touched.append(await _add_port(I, pid, k % 2 == 0))
+                        if _text(I, pid) != st[pid][0]:
+                            bad = ('load-differs', 'port %s came back with expression %r; its persisted expression %r, checked '
+                                   'like any assignment, gives %r' % (pid, _text(I, pid), persisted[pid], st[pid][0]))
                         obs.append(('accepted', _text(I, pid)))
                     else:
                         obs.append(('noport', ''))
                         continue
                 elif kind == 'remove':
                     obs.append((await _do_remove(I, port), ''))
+                    persisted.pop(pid, None)
                 else:
                     before = _state(I)
                     before_expr = port.get_expression()
@@ -542,6 +633,7 @@ async def run_history(I, h):
                 await _remove_port(I, port)
             except Exception:
                 I.core_ports._ports_by_id.pop(port.get_id(), None)
+        await I.core_ports.reset()
     return obs, verdict
 
 
@@ -600,6 +692,9 @@ def _coq_obs(kind, pid, text, outcome, after):
     return '(%s, %s, %s)' % (coq_op(kind, pid, text), OUTCOME[outcome], a)
 
 
+XOPS = {'save': 'XSave', 'unplug': 'XUnplug', 'add': 'XPlug', 'restart': 'XRestart', 'probe': 'XProbe'}
+
+
 def emitted(h):
     """indices of the operations that are steps of the Coq history (starting a value sequence is not one)"""
     return [i for i, o in enumerate(h['ops']) if o[0] != 'seq']
@@ -619,7 +714,10 @@ def coq_hist(h, obs):
     for (kind, pid, text), o in zip(h['ops'], obs):
         if kind == 'seq':
             continue
-        if kind == 'par':
+        if kind in XOPS:
+            x = 'XRestart' if kind == 'restart' else '(%s %s)' % (XOPS[kind], cstr(pid))
+            rows.append('HX %s %s (AText %s)' % (x, OUTCOME[o[0]], coq.string(o[1])))
+        elif kind == 'par':
             rows.append('HPar [%s]' % '; '.join(_coq_obs(sk, sp, st, out, after) for (sk, sp, st), (out, after) in zip(text, o[1])))
         else:
             rows.append('HOne %s' % _coq_obs(kind, pid, text, o[0], o[1]))
